@@ -183,11 +183,10 @@ Fixpoint a_set (k v : str) (l : list (str * str)) : list (str * str) :=
 Definition cell_get (c : dcell) (k : str) : option str := a_get (ckey (c_ci c) k) (c_items c).
 Definition cell_set (c : dcell) (k v : str) : dcell := mkCell (c_ci c) (a_set (ckey (c_ci c) k) v (c_items c)).
 
-(* CaseInsensitiveDict(mapping)  (utils.py:139-142): a new object.  initial = dict(mapping) first
-   (exact keys), then the lower-cased keys are inserted in that order *)
+(* CaseInsensitiveDict(mapping)  (utils.py __init__: self.update(...), i.e. MutableMapping.update):
+   a new object; the pairs are inserted one after the other through __setitem__ *)
 Definition ci_copy (items : list (str * str)) : dcell :=
-  let initial := fold_left (fun l kv => a_set (fst kv) (snd kv) l) items [] in
-  fold_left (fun c kv => cell_set c (fst kv) (snd kv)) initial (mkCell true []).
+  fold_left (fun c kv => cell_set c (fst kv) (snd kv)) items (mkCell true []).
 
 (* bibtex.py:85-98 *)
 Definition month_names : list (str * str) := Eval vm_compute in
@@ -392,7 +391,10 @@ Inductive op :=
 | OLowLevel (src : option nat) (file : list command)          (* list(LowLevelParser(text[, macros=readers[r].macros])) *)
 | OFormatName (names : str) (n : Z) (format : str)            (* the memoised _format_name, as format.name$ calls it *)
 | OBstRun (calls : list nkey)                                 (* Interpreter(...) + its format.name$ calls in order *)
-| OSetStrict (b : bool).                                      (* errors.set_strict_mode(b) *)
+| OSetStrict (b : bool)                                       (* errors.set_strict_mode(b) *)
+| OOpaque (id : N).                                           (* a call whose result the model does not compute and that touches no cell of G:
+                                                                 writers (to_string, each format), the YAML / BibTeXML readers, the Python engine
+                                                                 (format_from_string, format_bibliography + back end) *)
 
 (* snapshot of a reader's database: entries (key, type, fields, persons), preamble, macro table *)
 Definition snapshot := (list (str * entry) * list str * list (str * str))%type.
@@ -468,15 +470,20 @@ Definition exec (cap : nat) (fmt : fmt_fun) (g : G) (o : op) : G * res oval :=
     let '((c2, rd2, e2), u) := feed_files (new_macros (g_heap g) macros) (mkReader 0 [] []) files (g_err g) in
     (mkG (g_heap g) (g_readers g) (g_ms g) (g_mf g) e2, map_res_val (fun _ => VData (snap c2 rd2)) u)
   | OLowLevel src file =>
-    let ci := match src with
-              | None => Some 0
-              | Some r => match nth_error (g_readers g) r with Some rd => Some (r_cell rd) | None => None end
-              end in
-    match ci with
-    | None => (g, Crash)
-    | Some i =>
-      let '((cell1, e1), rr) := lowlevel false (h_get (g_heap g) i) file (g_err g) in
-      (mkG (h_set (g_heap g) i cell1) (g_readers g) (g_ms g) (g_mf g) e1, map_res_val VItems rr)
+    match src with
+    | None =>
+      (* LowLevelParser.__init__ (lines 142-158): macros=None -> a private plain-dict copy
+         dict(month_names); @string definitions stay in it *)
+      let '((cell1, e1), rr) := lowlevel false (mkCell false (c_items (h_get (g_heap g) 0))) file (g_err g) in
+      (mkG (g_heap g) (g_readers g) (g_ms g) (g_mf g) e1, map_res_val VItems rr)
+    | Some r =>
+      match nth_error (g_readers g) r with
+      | None => (g, Crash)
+      | Some rd =>
+        let i := r_cell rd in
+        let '((cell1, e1), rr) := lowlevel false (h_get (g_heap g) i) file (g_err g) in
+        (mkG (h_set (g_heap g) i cell1) (g_readers g) (g_ms g) (g_mf g) e1, map_res_val VItems rr)
+      end
     end
   | OFormatName names n format =>
     let '((mf1, (ms1, e1)), v) := memo_call nkey_eqb cap (format_name_f cap fmt) (names, n, format) (g_mf g, (g_ms g, g_err g)) in
@@ -487,6 +494,7 @@ Definition exec (cap : nat) (fmt : fmt_fun) (g : G) (o : op) : G * res oval :=
     (mkG (g_heap g) (g_readers g) ms1 mf1 e1, map_res_val VStrs v)
   | OSetStrict b =>
     (mkG (g_heap g) (g_readers g) (g_ms g) (g_mf g) (set_strict b (g_err g)), Ok VUnit)
+  | OOpaque _ => (g, Ok VUnit)
   end.
 
 Definition with_err (g : G) (e : errs) : G := mkG (g_heap g) (g_readers g) (g_ms g) (g_mf g) e.
